@@ -10,13 +10,14 @@ followed by a restart:
     stop after the aggregator recorded the key        -> cycle whose registration is recorded but answered with an error, restart
     stop after the aggregator recorded the signature  -> cycle whose publication is recorded but answered with an error, restart
 and an epoch turn inside a cycle as a cycle during which the aggregator double moves the chain right after it served
-the epoch settings."""
+the epoch settings.  `flip` on an epoch change: the configuration the aggregator creates when it enters the epoch (for
+the keys registered during it) gets the OTHER generation of protocol parameters."""
 
 OTHER = {"o1": 1, "o2": 2}
 
 
-def tick(fault, turn):
-    return {"a": "Tick", "fault": fault, "turn": bool(turn)}
+def tick(fault, turn, flip=False):
+    return {"a": "Tick", "fault": fault, "turn": bool(turn), "flip": bool(turn and flip)}
 
 
 def convert(steps):
@@ -29,6 +30,7 @@ def convert(steps):
         if a == "Tick":
             fault = s.get("fault", "none")
             turn = False
+            flip = False
             crash = None
             j = i + 1
             while j < n:
@@ -37,6 +39,7 @@ def convert(steps):
                     j += 1
                 elif t["a"] == "EpochUp" and t.get("during"):
                     turn = True
+                    flip = bool(t.get("flip"))
                     j += 1
                 elif t["a"] == "Restart" and t.get("at", "idle") != "idle":
                     crash = t["at"]
@@ -45,16 +48,16 @@ def convert(steps):
                 else:
                     break
             if crash is None:
-                out.append(tick(fault, turn))
+                out.append(tick(fault, turn, flip))
             else:
                 if crash == "fetched":
                     out.append(tick("unavailable", False))
                     if turn:
-                        out.append({"a": "EpochUp"})
+                        out.append({"a": "EpochUp", "flip": flip})
                 elif crash == "staked":
-                    out.append(tick("reg_fail", turn))
+                    out.append(tick("reg_fail", turn, flip))
                 elif crash == "registered":
-                    out.append(tick("reg_half", turn))
+                    out.append(tick("reg_half", turn, flip))
                 elif crash == "published":
                     out.append(tick("pub_half", False))
                 else:
@@ -63,7 +66,7 @@ def convert(steps):
             i = j
             continue
         if a == "EpochUp":
-            out.append({"a": "EpochUp"})
+            out.append({"a": "EpochUp", "flip": bool(s.get("flip"))})
         elif a == "ImmUp":
             out.append({"a": "ImmUp"})
         elif a == "Others":
@@ -95,6 +98,8 @@ def expectation(exp):
         "signed": sorted(entity_name(e) for e in exp["signed"]),
         "published": sorted(entity_name(e) for e in exp["published"]),
         "inits": sorted(exp["inits"]), "regs": sorted(exp["regs"]), "stakes": sorted(exp["stakes"]),
+        "init_gens": sorted([r, g] for r, g in exp["init_gens"]),
+        "agg_gens": sorted([r, g] for r, g in exp["agg_gens"]),
     }
 
 
@@ -107,4 +112,6 @@ def projection(obs):
         "published": sorted({s["entity"] for s in obs["sigs"]}),
         "inits": sorted(i["epoch"] for i in obs["inits"]), "regs": sorted(r["epoch"] for r in obs["regs"]),
         "stakes": sorted(s["epoch"] for s in obs["stakes"]),
+        "init_gens": sorted([i["epoch"], i["gen"]] for i in obs["inits"]),
+        "agg_gens": sorted([p["epoch"], p["gen"]] for p in obs["params"]),
     }
